@@ -1053,6 +1053,23 @@ func contentMissing(o ncOp, payload []byte, force bool) string {
 		if (a(0) == "1") != strings.Contains(p, "<confirmed") {
 			return "confirmed flag not as requested"
 		}
+		// every commit parameter the caller gave is in the request, and none that he did not give
+		var t uint
+		fmt.Sscanf(a(1), "%d", &t)
+		if (t > 0) != strings.Contains(p, "<confirm-timeout>") || (t > 0 && !strings.Contains(p, fmt.Sprintf("<confirm-timeout>%d</confirm-timeout>", t))) {
+			return "confirm-timeout not as requested"
+		}
+		esc := func(x string) string {
+			var b bytes.Buffer
+			_ = xml.EscapeText(&b, []byte(x))
+			return b.String()
+		}
+		if (a(2) != "") != strings.Contains(p, "<persist>") || (a(2) != "" && !strings.Contains(p, "<persist>"+esc(a(2))+"</persist>")) {
+			return "persist token not as requested"
+		}
+		if (a(3) != "") != strings.Contains(p, "<persist-id>") || (a(3) != "" && !strings.Contains(p, "<persist-id>"+esc(a(3))+"</persist-id>")) {
+			return "persist-id not as requested"
+		}
 	case "discard":
 		if !strings.Contains(p, "<discard-changes") {
 			return "no <discard-changes> element"
